@@ -437,7 +437,7 @@ func c15Seeds() (xmls, jsons [][]byte, gob []byte) {
 	for _, s := range []string{
 		`{"a":1}`, `{"a":{"b":[1,{"c":"]"}]},"d":"x\\"}`, `[1,{"a":null}]`, `{"a":"}{\""}`, ` {"a":true} {"b":2}`, `{"é":"é"}`,
 		// syntactically valid documents the JSON decoder rejects after it has started to fill the result
-		`{"a":1,"b":1e999,"c":2}`, `{"a":[1,{"b":-1e999}],"c":"x"}`,
+		`{"a":1,"b":1e999,"c":2}`, `{"a":[1,{"b":-1e999}],"c":"x"}`, `{"a":[]}`, `[]`,
 	} {
 		jsons = append(jsons, []byte(s))
 	}
